@@ -26,7 +26,7 @@ use serde_json::{json, Map, Value};
 use std::io::Write;
 use std::panic::{catch_unwind, AssertUnwindSafe};
 
-pub type Reg = Registry!(Z, B, S, W, H);
+pub type Reg = Registry!(Z, B, S, W, H, T5, T6, T7, T8);
 pub type Res = Resources!(RA, RB, RC);
 pub type Wd = World<Reg, Res>;
 pub const MAXW: usize = 3;
@@ -65,7 +65,7 @@ pub fn new_world(vals: [u32; 3]) -> Wd {
 pub fn content(world: &mut Wd) -> (Map<String, Value>, usize) {
     let mut ents = Map::new();
     let mut n = 0usize;
-    for result!(id, z, b, s, w, h) in world
+    for result!(id, z, b, s, w, h, t5, t6, t7, t8) in world
         .query(Query::<
             Views!(
                 entity::Identifier,
@@ -73,7 +73,11 @@ pub fn content(world: &mut Wd) -> (Map<String, Value>, usize) {
                 Option<&B>,
                 Option<&S>,
                 Option<&W>,
-                Option<&H>
+                Option<&H>,
+                Option<&T5>,
+                Option<&T6>,
+                Option<&T7>,
+                Option<&T8>
             ),
         >::new())
         .iter
@@ -93,6 +97,18 @@ pub fn content(world: &mut Wd) -> (Map<String, Value>, usize) {
         }
         if let Some(x) = h {
             c.insert("H".into(), obs_json(x.obs()));
+        }
+        if let Some(x) = t5 {
+            c.insert("T5".into(), obs_json(x.obs()));
+        }
+        if let Some(x) = t6 {
+            c.insert("T6".into(), obs_json(x.obs()));
+        }
+        if let Some(x) = t7 {
+            c.insert("T7".into(), obs_json(x.obs()));
+        }
+        if let Some(x) = t8 {
+            c.insert("T8".into(), obs_json(x.obs()));
         }
         ents.insert(ids(id), Value::Object(c));
         n += 1;
@@ -349,11 +365,11 @@ impl Driver {
     fn order_of(op: &Value) -> Vec<u8> {
         op["order"].as_array().unwrap().iter().map(|x| x.as_u64().unwrap() as u8).collect()
     }
-    fn vals_of(v: &Value) -> [u32; 5] {
+    fn vals_of(v: &Value) -> [u32; NC] {
         let a = v.as_array().unwrap();
-        let mut r = [0u32; 5];
-        for i in 0..5 {
-            r[i] = a[i].as_u64().unwrap() as u32;
+        let mut r = [0u32; NC];
+        for i in 0..NC {
+            r[i] = a.get(i).and_then(|x| x.as_u64()).unwrap_or(7 + i as u64) as u32;
         }
         r
     }
@@ -391,7 +407,7 @@ impl Driver {
             }
             "extend" => {
                 let order = Self::order_of(op);
-                let rows: Vec<[u32; 5]> = op["rows"].as_array().unwrap().iter().map(Self::vals_of).collect();
+                let rows: Vec<[u32; NC]> = op["rows"].as_array().unwrap().iter().map(Self::vals_of).collect();
                 let extra = op.get("extra").and_then(|x| x.as_u64()).unwrap_or(0) as usize;
                 let s = self.slot(w);
                 let ids = shapes::extend(&mut s.world, &order, &rows, extra);
@@ -420,6 +436,10 @@ impl Driver {
                             2 => { let x = S::fresh(v); heap::lib(|| e.add(x)) }
                             3 => { let x = W::fresh(v); heap::lib(|| e.add(x)) }
                             4 => { let x = H::fresh(v); heap::lib(|| e.add(x)) }
+                            5 => { let x = T5::fresh(v); heap::lib(|| e.add(x)) }
+                            6 => { let x = T6::fresh(v); heap::lib(|| e.add(x)) }
+                            7 => { let x = T7::fresh(v); heap::lib(|| e.add(x)) }
+                            8 => { let x = T8::fresh(v); heap::lib(|| e.add(x)) }
                             _ => panic!("harness: bad comp"),
                         }
                         true
@@ -446,11 +466,19 @@ impl Driver {
                                 (2, false) => { let x = S::fresh(v); heap::lib(|| e.add(x)) }
                                 (3, false) => { let x = W::fresh(v); heap::lib(|| e.add(x)) }
                                 (4, false) => { let x = H::fresh(v); heap::lib(|| e.add(x)) }
+                                (5, false) => { let x = T5::fresh(v); heap::lib(|| e.add(x)) }
+                                (6, false) => { let x = T6::fresh(v); heap::lib(|| e.add(x)) }
+                                (7, false) => { let x = T7::fresh(v); heap::lib(|| e.add(x)) }
+                                (8, false) => { let x = T8::fresh(v); heap::lib(|| e.add(x)) }
                                 (0, true) => heap::lib(|| e.remove::<Z, _>()),
                                 (1, true) => heap::lib(|| e.remove::<B, _>()),
                                 (2, true) => heap::lib(|| e.remove::<S, _>()),
                                 (3, true) => heap::lib(|| e.remove::<W, _>()),
                                 (4, true) => heap::lib(|| e.remove::<H, _>()),
+                                (5, true) => heap::lib(|| e.remove::<T5, _>()),
+                                (6, true) => heap::lib(|| e.remove::<T6, _>()),
+                                (7, true) => heap::lib(|| e.remove::<T7, _>()),
+                                (8, true) => heap::lib(|| e.remove::<T8, _>()),
                                 _ => panic!("harness: bad comp"),
                             }
                         }
@@ -472,6 +500,10 @@ impl Driver {
                             2 => heap::lib(|| e.remove::<S, _>()),
                             3 => heap::lib(|| e.remove::<W, _>()),
                             4 => heap::lib(|| e.remove::<H, _>()),
+                            5 => heap::lib(|| e.remove::<T5, _>()),
+                            6 => heap::lib(|| e.remove::<T6, _>()),
+                            7 => heap::lib(|| e.remove::<T7, _>()),
+                            8 => heap::lib(|| e.remove::<T8, _>()),
                             _ => panic!("harness: bad comp"),
                         }
                         true
